@@ -733,7 +733,7 @@ func (c *Ctx) mapValueAllocated(va, m, k Term) {
 	lim := birthBase + c.nextObj + 1
 	var walk func(v Term, depth int)
 	walk = func(v Term, depth int) {
-		if depth > 64 {
+		if depth > 4096 {
 			return
 		}
 		bound := lim
